@@ -448,6 +448,12 @@ def _reduction(opname, dtype=None, index=False):
                 x = fresh_arr(T("where3", wv.term, x.term, fill), sh, x.labels | wv.labels, x.extra if isinstance(x.extra, str) else None)
                 kw = {k: v for k, v in kw.items() if k not in ("where", "initial")}
                 b = bind(["a", "axis", "dtype", "out", "keepdims"], [x] + list(args[1:]), kw)
+        if rank == 3 and isinstance(x.term, Term) and x.term.op in ("comp", "list") and axis_of(b.get("axis"), rank) in (1, 2) and not any(k in kw for k in ("keepdims", "weights", "out")) and hasattr(interp, "vtab"):
+            # a reduction within every matrix of a stack
+            kw2 = {k: v for k, v in kw.items() if k != "axis"}
+            r = A.lift3_map(interp, [x], lambda els: f(interp, name, [els[0]], dict(kw2, axis=vconst(axis_of(b.get("axis"), rank) - 1)), st, node), st, want_rank=1)
+            if r is not None:
+                return r
         src = merged_leading(interp, x)
         if src is not None and rank is not None and rank >= 2 and axis_of(b.get("axis"), rank) == rank - 1 and not any(k in kw for k in ("keepdims", "weights", "out", "dtype")):
             # a reduction along the last axis commutes with merging the leading axes
@@ -821,6 +827,11 @@ def transpose(interp, x, axes=None):
             return x
         if perm == list(reversed(range(len(perm)))):
             return V("arr", T("T", x.term), shape=nsh, orig=x.orig, labels=x.labels, loc=x.loc)
+        if perm == [0, 2, 1] and hasattr(interp, "vtab"):
+            # every matrix of the stack transposed
+            r = A.lift3_map(interp, [x], lambda els: transpose(interp, els[0]), None)
+            if r is not None:
+                return r
         return V("arr", T("transpose", x.term, *[const(p) for p in perm]), shape=nsh, orig=x.orig, labels=x.labels, loc=x.loc)
     return V("arr", T("transpose", x.term, axes.term), shape=None, orig=x.orig, labels=x.labels, loc=x.loc)
 
@@ -1940,6 +1951,14 @@ def np_einsum(interp, name, args, kw, st, node):
             return NP["numpy.sum"](interp, "numpy.sum", [v], {"axis": vconst(drop[0])}, st, node), idx[1 - drop[0]]
         return None, None
 
+    # a batch index (leading in the output and in every operand carrying it, rank-3 operands):
+    # the contraction is done for every matrix of the stack
+    if out and any(len(s) == 3 for s in subs) and all(len(s) <= 3 for s in subs) and all((out[0] not in s) or (len(s) == 3 and s[0] == out[0] and s.count(out[0]) == 1) for s in subs) and all(len(s) != 3 or s[0] == out[0] for s in subs) and hasattr(interp, "vtab"):
+        k_ = out[0]
+        sub2 = ",".join(s[1:] if k_ in s else s for s in subs) + "->" + out[1:]
+        r = A.lift3_map(interp, ops, lambda els: np_einsum(interp, name, [vconst(sub2)] + list(els), {}, st, node), st, want_rank=len(out) - 1)
+        if r is not None:
+            return r
     # repeated index inside one operand: diagonal / trace
     cur, ci = ops[0], subs[0]
     if len(ci) == 2 and ci[0] == ci[1]:
